@@ -4,6 +4,7 @@ package main
 // POS.COL, POS.ERRSITE, TREE.ATTACHED, TREE.VISITALL, STATE.RELINK, GLOBAL.ESCAPE.
 
 import (
+	"os"
 	"fmt"
 	"go/ast"
 	"go/token"
@@ -554,6 +555,57 @@ func ruleTreeAttached(c *Ctx) []Obligation {
 			}
 			if retDirect && fn.Name() != "Find" {
 				obs = append(obs, ok(R, con, c.InstrPos(in), "returned fresh to the caller, which links it (TREE.PARENT judges that link)"))
+				return
+			}
+			// stored through a pointer the caller hands in (`func (e *Entry) part(slot **Entry, …) { *slot = &Entry{Parent:
+			// e, …} }`): linked if every caller hands in the address of a link field
+			viaSlot := false
+			for _, r := range refsOf(al) {
+				st, isS := r.(*ssa.Store)
+				if !isS || st.Val != ssa.Value(al) {
+					continue
+				}
+				p, isP := st.Addr.(*ssa.Parameter)
+				if !isP {
+					continue
+				}
+				idx := paramIndex(fn, p)
+				node := c.Graph().Nodes[fn]
+				if idx < 0 || node == nil || len(node.In) == 0 {
+					continue
+				}
+				all := true
+				for _, e := range node.In {
+					if e.Caller.Func.Synthetic != "" {
+						continue // a wrapper nobody calls
+					}
+					if e.Site == nil || e.Site.Common().StaticCallee() != fn || idx >= len(e.Site.Common().Args) {
+						if os.Getenv("VERIF_DEBUG_SLOT") != "" {
+							fmt.Fprintf(os.Stderr, "DEBUG slot: edge from %s not static\n", e.Caller.Func)
+						}
+						all = false
+						break
+					}
+					if os.Getenv("VERIF_DEBUG_SLOT") != "" {
+						fmt.Fprintf(os.Stderr, "DEBUG slot: arg %T %s\n", e.Site.Common().Args[idx], e.Site.Common().Args[idx])
+					}
+					fa, isFA := e.Site.Common().Args[idx].(*ssa.FieldAddr)
+					if !isFA {
+						all = false
+						break
+					}
+					owner, f, _ := fieldOf(fa)
+					if f == nil || owner == nil || !ptrTo(f.Type(), m.entry) {
+						all = false
+						break
+					}
+				}
+				if all {
+					viaSlot = true
+				}
+			}
+			if viaSlot {
+				obs = append(obs, ok(R, con, c.InstrPos(in), "stored through a pointer parameter, and every caller hands in the address of an entry-valued link field"))
 				return
 			}
 			obs = append(obs, bad(R, con, c.InstrPos(in), "the new entry names a parent but is never stored into that parent's Dir/RPC: it is detached — what is merged into it (augments) is lost and no absolute path finds it again"))
@@ -1241,3 +1293,10 @@ func (c *Ctx) linksResetPerPass(fn *ssa.Function, f *types.Var) bool {
 
 // sliceOf: the slice value behind an element address (x[i] → x).
 func sliceOf(v ssa.Value) ssa.Value { return v }
+
+
+// ptrTo: t is *N.
+func ptrTo(t types.Type, n *types.Named) bool {
+	pt, isP := t.(*types.Pointer)
+	return isP && namedOf(pt.Elem()) == n
+}
